@@ -145,8 +145,8 @@ struct Mon {
             MSub& b = *bp; if (op.g < STopology || op.g > SReport) return 1;
             if (b.stage > (op.g <= SModel ? SEmpty : STopology)) return 1;
             MDV v; v.alloc = b.stage + 1; v.inval = op.g; v.val = op.tok; expectRet = (long)b.dv.size(); b.dv.push_back(v); return 0; }
-        case K_AllocAuto: {   // only generated legally (P5)
-            MSub& b = *bp;
+        case K_AllocAuto: {   // arguments always legal (P5); may come too late (stage >= Model) => must be rejected
+            MSub& b = *bp; if (b.stage > STopology) return 1;
             MDV v; v.alloc = b.stage + 1; v.inval = op.g; v.val = op.tok; v.autoCE = (int)b.ce.size();
             MCE e; e.alloc = b.stage + 1; e.dep = op.g2; e.comp = SInfinity; e.assocDV = (int)b.dv.size(); e.val = op.tok;
             expectRet = (long)b.dv.size(); b.dv.push_back(v); b.ce.push_back(e); return 0; }
@@ -251,7 +251,7 @@ struct Mon {
         case K_AllocU: ret = R.allocateU(sx, toVector(op.vals)); break;
         case K_AllocZ: ret = R.allocateZ(sx, toVector(op.vals)); break;
         case K_AllocDV: { AbstractValue* vp = newVal(op.tok); try { ret = R.allocateDiscreteVariable(sx, st(op.g), vp); } catch (...) { delete vp; throw; } break; }
-        case K_AllocAuto: ret = R.allocateAutoUpdateDiscreteVariable(sx, st(op.g), newVal(op.tok), st(op.g2)); break;
+        case K_AllocAuto: { AbstractValue* vp = newVal(op.tok); try { ret = R.allocateAutoUpdateDiscreteVariable(sx, st(op.g), vp, st(op.g2)); } catch (...) { delete vp; throw; } break; }
         case K_AllocCE: { AbstractValue* vp = newVal(op.tok); try { ret = R.allocateCacheEntry(sx, st(op.g), st(op.g2), vp); } catch (...) { delete vp; throw; } break; }
         case K_AllocCEPre: {
             Array_<DiscreteVarKey> dvs; Array_<CacheEntryKey> ces;
@@ -707,6 +707,7 @@ struct Mon {
         return false;
     }
     bool noZW = false;   // --nozw 1 : leave updZWeights() out (to look past a finding on it)
+    bool noAutoLate = false;   // --noautolate 1 : leave out the too-late allocateAutoUpdateDiscreteVariable (ditto)
     bool genCacheOp(Op& op, const MState& m) {
         std::vector<Key> all, markable;
         for (int si = 0; si < (int)m.subs.size(); ++si) for (int ci = 0; ci < (int)m.subs[si].ce.size(); ++ci) {
@@ -778,7 +779,9 @@ struct Mon {
                 op.kind = K_AllocCEPre; op.g = r.integer(STopology, m.subs[k.first].ce[k.second].dep - 1); op.g2 = SInfinity; op.pce.push_back(k); op.bq = r.coin(); return true; }
             case 4: if (b.stage < SInstance) continue; op.kind = K_AllocQErr + r.integer(0, 2); op.n = 2; return true;
             case 5: op.kind = K_InvCache; op.g = r.integer(STopology, SModel); return true;
-            case 6: if (b.stage < SInstance) continue; op.kind = K_AllocCEPre; op.g = randDep(); op.g2 = SInfinity; op.bu = true; return true;
+            case 6:
+                if (b.stage >= SModel && !noAutoLate && r.coin()) { op.kind = K_AllocAuto; op.g = r.integer(SPosition, SReport); op.g2 = r.integer(STime, SReport); return true; }
+                if (b.stage < SInstance) continue; op.kind = K_AllocCEPre; op.g = randDep(); op.g2 = SInfinity; op.bu = true; return true;
             // ---- checked in debug builds only (P2)
             case 7: if (m.sys >= SModel) continue; op.kind = K_UpdQ + r.integer(0, 3); op.vals = randVals(1); return true;
             case 8: if (m.sys >= STopology) continue; op.kind = K_UpdTime; op.vals = randVals(1); return true;
@@ -838,7 +841,7 @@ struct Mon {
 
     void runCase(long idx) {
         aheadMax = r.coin(0.15) ? 3 : 1;
-        noZW = c.args.getInt("nozw", 0) != 0;
+        noZW = c.args.getInt("nozw", 0) != 0; noAutoLate = c.args.getInt("noautolate", 0) != 0;
         objs[0].real.reset(new State()); objs[0].live = true; objs[0].m = MState();
         { Op op; op.kind = K_Clear; op.obj = 0; op.n = r.integer(1, 4); op.mark = r.coin(); step(op); }
         const int len = r.integer(10, (int)c.args.getInt("maxlen", 200));
